@@ -21,7 +21,7 @@ type mlink struct {
 	id    string // hex of the hard link id
 	inode *snap  // the shared attributes / chunks / extended
 	names map[string]bool
-	bias  int // counter offset inherited from a faulted (failed) client-side link/unlink sequence
+	bias  int  // counter offset inherited from a faulted (failed) client-side link/unlink sequence
 	loose bool // counter / record disagree with the names since an earlier accepted divergence: names are only checked for existence and kind
 }
 
